@@ -5,7 +5,11 @@
  * in this process (so the very first asm_create_instance calls - the only
  * moment the global lookup tables change value - overlap in the threads).
  *
- *   threads <programs-file> <nthreads> <iterations> <seed> [stagger_us]
+ *   threads <programs-file> <nthreads> <iterations> <seed> [stagger_us] [cold_trials]
+ * cold_trials > 0: after the reference has been computed (in a forked child), <cold_trials> fresh child processes are forked,
+ * none of which has ever entered the library; in each, the threads are released by a spin barrier with a per-thread delay of
+ * 0..5000 ns and perform their FIRST library calls (create -> options -> assemble -> destroy) concurrently - the only moment at
+ * which lazily built shared tables change. Output line: "K <trials> <ops> <mismatches>".
  * programs-file: one program per line, hex encoded text.
  * stdout: "M ..." per mismatch (first 50), then "T <threads> <iters> <ops> <mismatches>"
  */
@@ -123,6 +127,97 @@ static void *worker(void *arg) {
   return NULL;
 }
 
+/* ---------------------------------------------------------------- cold-start trials */
+#include <stdatomic.h>
+static _Atomic int cold_arrived;
+static int cold_n;
+static long cold_delta_ns;
+static long *cold_mm; /* MAP_SHARED: [0] mismatches [1] ops, written by the trial children */
+
+static inline long now_ns(void) {
+  struct timespec ts;
+  clock_gettime(CLOCK_MONOTONIC, &ts);
+  return ts.tv_sec * 1000000000L + ts.tv_nsec;
+}
+
+static void *cold_worker(void *arg) {
+  long id = (long)arg;
+  unsigned rs = seed0 * 31u + (unsigned)id * 977u + (unsigned)cold_delta_ns;
+  /* first-call costs that are not the library's: stack pages, this thread's malloc arena */
+  volatile char pad[8192];
+  for (int i = 0; i < 8192; i += 512)
+    pad[i] = 1;
+  uint8_t *buf = malloc(BUFSZ);
+  memset(buf, 0xCC, BUFSZ);
+  int p = rand_r(&rs) % nprog, m = rand_r(&rs) % NMASK, mode = rand_r(&rs) % NMODE;
+  atomic_fetch_add(&cold_arrived, 1);
+  while (atomic_load(&cold_arrived) < cold_n)
+    ;
+  long t0 = now_ns();
+  while (now_ns() - t0 < id * cold_delta_ns)
+    ;
+  long mm = 0, n = 0;
+  for (int it = 0; it < 3; it++) {
+    struct ref got;
+    one(p, m, mode, it == 1, buf, &got, &rs, 0);
+    struct ref *w = &REF[(p * NMASK + m) * NMODE + mode];
+    n++;
+    if (got.rc != w->rc || got.off != w->off || got.count != w->count || got.hash != w->hash) {
+      mm++;
+      pthread_mutex_lock(&mu);
+      if (__atomic_load_n(&cold_mm[0], __ATOMIC_RELAXED) + mm <= 10)
+        printf("M cold thread=%ld it=%d prog=%d mask=%d mode=%d delta=%ldns got=%d/%d/%d/%016llx want=%d/%d/%d/%016llx\n", id, it, p, m, mode,
+               cold_delta_ns, got.rc, got.off, got.count, (unsigned long long)got.hash, w->rc, w->off, w->count,
+               (unsigned long long)w->hash);
+      pthread_mutex_unlock(&mu);
+    }
+    p = rand_r(&rs) % nprog;
+    m = rand_r(&rs) % NMASK;
+    mode = rand_r(&rs) % NMODE;
+  }
+  __atomic_fetch_add(&cold_mm[0], mm, __ATOMIC_RELAXED);
+  __atomic_fetch_add(&cold_mm[1], n, __ATOMIC_RELAXED);
+  free(buf);
+  return NULL;
+}
+
+static void cold_trials(int trials, int nthreads) {
+  static const long DELTAS[] = {0, 50, 100, 200, 400, 800, 1500, 5000};
+  cold_mm = mmap(NULL, 4096, PROT_READ | PROT_WRITE, MAP_SHARED | MAP_ANONYMOUS, -1, 0);
+  int done = 0;
+  for (int t = 0; t < trials; t++) {
+    fflush(stdout);
+    pid_t pid = fork();
+    if (pid == 0) {
+      cold_n = 2 + (t % (nthreads > 2 ? nthreads - 1 : 1));
+      if (cold_n > 16)
+        cold_n = 16;
+      cold_delta_ns = DELTAS[(t / 3) % 8];
+      seed0 = seed0 * 131u + (unsigned)t;
+      atomic_store(&cold_arrived, 0);
+      pthread_t th[16];
+      for (long i = 0; i < cold_n; i++)
+        pthread_create(&th[i], NULL, cold_worker, (void *)i);
+      for (int i = 0; i < cold_n; i++)
+        pthread_join(th[i], NULL);
+      fflush(stdout);
+      _exit(0);
+    }
+    if (pid < 0) { /* fork refused (process limit, memory): not a verdict about the library, the trial is not counted */
+      usleep(1000);
+      continue;
+    }
+    int st = 0;
+    waitpid(pid, &st, 0);
+    if (!WIFEXITED(st) || WEXITSTATUS(st) != 0) {
+      printf("E cold trial %d died: status %d\n", t, st);
+      __atomic_fetch_add(&cold_mm[0], 1, __ATOMIC_RELAXED);
+    }
+    done++;
+  }
+  printf("K %d %ld %ld\n", done, cold_mm[1], cold_mm[0]);
+}
+
 static int unhex(const char *h, char **out) {
   size_t n = strlen(h);
   char *b = malloc(n / 2 + 1);
@@ -180,6 +275,15 @@ int main(int argc, char **argv) {
   if (!WIFEXITED(st) || WEXITSTATUS(st) != 0) {
     printf("E reference child failed %d\n", st);
     return 3;
+  }
+  int ncold = argc > 6 ? atoi(argv[6]) : 0;
+  if (ncold > 0) {
+    /* this process has not entered the library yet (the reference was computed in the forked child above) */
+    cold_trials(ncold, nthreads);
+    if (iters <= 0) {
+      printf("T %d %d %d %d %ld\n", nthreads, 0, 0, 0, 0L);
+      return 0;
+    }
   }
   pthread_barrier_init(&bar, NULL, (unsigned)nthreads);
   pthread_t th[64];
